@@ -169,7 +169,7 @@ class C08(Check):
         "DoIP/HSFZ gateway": "stub (correct behaviour), UDS answers from real handle_request",
     }
     shrink_lists: list[str] = []
-    quick_runs = 9000
+    quick_runs = 30000
     thorough_runs = 3500000
     chunk = 150
     smoke_runs = 12
